@@ -294,8 +294,53 @@ fn check_transaction(h: &[usize]) -> Option<Fail> {
     None
 }
 
+/// Long histories: many keys, many open windows (size 64 slide 1 keeps 64 per key), elements up
+/// to `jitter` behind the newest one but never late, a watermark every few elements, two
+/// iterations.
+fn long_history(n: i64, keys: i64, jitter: i64) -> Vec<Sym> {
+    let mut h = vec![];
+    for it in 0..2 {
+        let mut wm = -1i64;
+        for i in 0..n {
+            // deterministic scramble inside the allowed lateness
+            let t = (i - (i * 7 + it) % (jitter + 1)).max(wm + 1).max(0);
+            h.push(Sym::T(i % keys, t));
+            if i % 5 == 4 {
+                wm = i - jitter - 1;
+                if wm >= 0 {
+                    h.push(Sym::W(wm));
+                }
+            }
+        }
+        h.push(Sym::Far);
+    }
+    h
+}
+
 fn build(tier: Tier) -> Vec<Scenario> {
     let mut out = vec![];
+    out.push(loop_scenario(
+        "C13/event-time/long-histories".to_string(),
+        "histories of 2 x 400 elements over 150 / 3 keys, out of order within a lateness of 0, 3 or 20, a watermark every 5 elements, for window (size, slide) in (64,1), (100,7), (8,8), (1200,400)".to_string(),
+        Arc::new(move || {
+            let mut cases = 0;
+            let mut fail = None;
+            for (size, slide) in [(64i64, 1i64), (100, 7), (8, 8), (1200, 400)] {
+                for keys in [150i64, 3] {
+                    for jitter in [0i64, 3, 20] {
+                        if fail.is_some() {
+                            break;
+                        }
+                        cases += 1;
+                        fail = check_event_time(&long_history(400, keys, jitter), size, slide).map(|f| {
+                            Fail::new(f.sig.clone(), format!("long history (400 elements per iteration, {keys} keys, lateness {jitter}) size {size} slide {slide}: {}", f.msg.chars().rev().take(400).collect::<Vec<_>>().into_iter().rev().collect::<String>()))
+                        });
+                    }
+                }
+            }
+            (cases, cases, fail)
+        }),
+    ));
     let (len1, len2, tmax) = match tier {
         Tier::Quick => (6usize, 5usize, 4i64),
         Tier::Thorough => (7, 6, 6),
